@@ -18,6 +18,7 @@ type inode struct {
 	entries []*dirent
 	perm    *Term // BV32 permission + special bits (low 12 bits of the mode)
 	target  Str   // symlink target
+	mount   bool  // a directory on which another file system is mounted (vpOtherDevice): rename/link across its boundary fail with EXDEV
 }
 
 type dirent struct {
@@ -62,6 +63,8 @@ type vfs struct {
 	trace      []fsEvent
 	tracing    bool
 	faultArmed bool
+	killArmed  bool // kill mode: the process running the operation may be killed before any file-system call
+	killFired  bool
 	faultFired bool
 	faultDesc  string
 	permute    bool
@@ -159,6 +162,7 @@ type resolved struct {
 	ino    *inode // nil if the last component does not exist
 	errno  int
 	path   string
+	dev    int     // device of the directory holding the last component (0 = the root file system, else the mount point's inode id)
 	ent    *dirent // the last component's own directory entry (hard links: several entries may share an inode)
 }
 
@@ -181,6 +185,8 @@ func (fs *vfs) resolve(p Str, followLast bool) resolved {
 	cur := fs.root
 	var stack []*inode
 	var names []string
+	dev := 0
+	var devStack []int
 	dot := in.strConst(".")
 	dotdot := in.strConst("..")
 	for i, c := range comps {
@@ -199,6 +205,8 @@ func (fs *vfs) resolve(p Str, followLast bool) resolved {
 				cur = stack[len(stack)-1]
 				stack = stack[:len(stack)-1]
 				names = names[:len(names)-1]
+				dev = devStack[len(devStack)-1]
+				devStack = devStack[:len(devStack)-1]
 			}
 			if last {
 				return resolved{parent: nil, ino: cur, name: c, path: "/" + strings.Join(names, "/")}
@@ -207,7 +215,7 @@ func (fs *vfs) resolve(p Str, followLast bool) resolved {
 		}
 		e := fs.lookupEntry(cur, c)
 		if last {
-			r := resolved{parent: cur, name: c, path: "/" + strings.Join(append(names, c.Show()), "/")}
+			r := resolved{parent: cur, name: c, path: "/" + strings.Join(append(names, c.Show()), "/"), dev: dev}
 			if e != nil {
 				r.ino = e.ino
 				r.ent = e
@@ -235,8 +243,12 @@ func (fs *vfs) resolve(p Str, followLast bool) resolved {
 			nxt = t.ino
 		}
 		stack = append(stack, cur)
+		devStack = append(devStack, dev)
 		names = append(names, c.Show())
 		cur = nxt
+		if cur.mount {
+			dev = cur.id
+		}
 	}
 	// path was "/" or only separators
 	return resolved{parent: nil, ino: cur, path: "/"}
@@ -244,6 +256,18 @@ func (fs *vfs) resolve(p Str, followLast bool) resolved {
 
 // fault decides whether the current call fails in single-fault mode.
 func (fs *vfs) fault(op string, errno int) int {
+	if fs.killArmed && !fs.killFired {
+		switch op {
+		case "stat", "fstat", "read", "getdents":
+			// a kill before a read-only call leaves the same state as before the next mutating one
+		default:
+			if fs.in.Choose(2) == 1 {
+				fs.killFired = true
+				fs.in.env.extra["killed-before"] = fmt.Sprintf("%s#%d", op, len(fs.trace))
+				panic(crashKill{})
+			}
+		}
+	}
 	if !fs.faultArmed || fs.faultFired {
 		return 0
 	}
@@ -519,6 +543,9 @@ func (fs *vfs) rename(from, to Str) Iface {
 	if en == 0 && b.parent == nil {
 		en = eEXIST
 	}
+	if en == 0 && a.dev != b.dev {
+		en = eXDEV
+	}
 	if en == 0 && b.ino != nil {
 		if b.ino.kind == 'd' && a.ino.kind != 'd' {
 			en = eISDIR
@@ -630,6 +657,9 @@ func registerVFS(p *Program) {
 		}
 		if en == 0 && (n.ino != nil || n.parent == nil) {
 			en = eEXIST
+		}
+		if en == 0 && o.dev != n.dev {
+			en = eXDEV
 		}
 		if en != 0 {
 			fs.event(fsEvent{Op: "link", Path: n.path, PathS: a[1].(Str), Err: errnoText[en]})
@@ -820,6 +850,27 @@ func registerVFS(p *Program) {
 		f.off = off + len(data)
 		fs.event(fsEvent{Op: "write", Path: f.path, Ino: f.ino.id, N: len(data), Data: data})
 		return len(data), Iface{}
+	}
+	I["(*os.File).Seek"] = func(in *Interp, fr *frame, a []Value) Value {
+		f := fileOf(a[0])
+		if f == nil || f.closed {
+			return Tuple{in.ts.Const(64, 0), badf(in, "seek")}
+		}
+		off := int(int64(in.concInt(a[1].(*Term))))
+		switch in.concInt(in.ts.Resize(a[2].(*Term), 64, true)) {
+		case 0:
+		case 1:
+			off += f.off
+		case 2:
+			off += len(f.ino.data)
+		default:
+			return Tuple{in.ts.Const(64, 0), in.pathError("seek", f.name, eINVAL)}
+		}
+		if off < 0 {
+			return Tuple{in.ts.Const(64, 0), in.pathError("seek", f.name, eINVAL)}
+		}
+		f.off = off
+		return Tuple{in.ts.Const(64, uint64(off)), Iface{}}
 	}
 	I["(*os.File).Write"] = func(in *Interp, fr *frame, a []Value) Value {
 		n, e := writeImpl(in, fileOf(a[0]), in.sliceBytesOrNil(a[1].(Slice)))
@@ -1036,6 +1087,36 @@ func registerVFS(p *Program) {
 	I["vp:vpFaultDisarm"] = func(in *Interp, fr *frame, a []Value) Value {
 		in.env.FS().faultArmed = false
 		return nil
+	}
+	// vpRunKillable(f): runs f as the operation of a process that may be killed (SIGKILL) before any
+	// of its mutating file-system calls: one path per kill point plus the path on which f completes.
+	// A kill unwinds nothing: no deferred call of the code under test runs, open files are simply
+	// abandoned. Returns true when the process was killed.
+	I["vp:vpRunKillable"] = func(in *Interp, fr *frame, a []Value) (ret Value) {
+		fs := in.env.FS()
+		fs.killArmed, fs.killFired = true, false
+		depth := in.depth
+		defer func() {
+			fs.killArmed = false
+			if r := recover(); r != nil {
+				if _, ok := r.(crashKill); !ok {
+					panic(r)
+				}
+				in.depth = depth
+				ret = in.ts.True
+			}
+		}()
+		in.callValue(a[0], nil, fr)
+		return in.ts.False
+	}
+	// vpOtherDevice(dir): from now on dir is the mount point of another file system
+	I["vp:vpOtherDevice"] = func(in *Interp, fr *frame, a []Value) Value {
+		r := in.env.FS().resolve(a[0].(Str), true)
+		if r.ino == nil || r.ino.kind != 'd' {
+			panic(engineErr("vpOtherDevice: not a directory"))
+		}
+		r.ino.mount = true
+		return in.ts.True
 	}
 	I["vp:vpFaultFired"] = func(in *Interp, fr *frame, a []Value) Value {
 		return in.ts.Bool(in.env.FS().faultFired)
